@@ -58,4 +58,27 @@ for name, t in cases:
 print("GOOD traces rejected:", len(rej0), "of", len(good))
 for name in by:
     print("CORRUPT", name, dict(by[name]))
+# ---- nameserver glue traces
+gc = ctx.generate("MC_NameserverGlue", ctx.cfg("gglue.cfg", c16.GLUE_GEN_CFG))[::16]
+ggood = [d.glue_job((c, "n%d" % i)) for i, c in enumerate(gc)]
+gcases = []
+def gadd(name, tr, fn, cond=lambda t: True):
+    if cond(tr):
+        t = copy.deepcopy(tr); fn(t); t["tid"] = name + ":" + tr["tid"]; gcases.append((name, t))
+for tr in ggood:
+    gadd("g-rot", tr, lambda t: t["ev"][1]["args"].__setitem__("raise_on_truncation", "absent"), lambda t: t["ev"][1]["args"]["transport"] == "udp")
+    gadd("g-timeout", tr, lambda t: t["ev"][0]["args"].__setitem__("timeout", t["ev"][0]["args"]["timeout"] + 1))
+    gadd("g-transport", tr, lambda t: t["ev"][0]["args"].__setitem__("transport", "tcp" if t["ev"][0]["args"]["transport"] != "tcp" else "udp"))
+    gadd("g-itrail", tr, lambda t: t["ev"][1]["args"].__setitem__("ignore_trailing", "absent"))
+    gadd("g-outcome", tr, lambda t: t["ev"][1].__setitem__("outcome", ["return", "tc"]), lambda t: t["ev"][1]["outcome"] != ["return", "tc"])
+    gadd("g-async-only", tr, lambda t: t["ev"][1]["args"].__setitem__("ignore_errors", "false"))
+grej0 = ctx.validate("Trace_NameserverGlue", "Trace_NameserverGlue.cfg", ggood)
+grej = ctx.validate("Trace_NameserverGlue", "Trace_NameserverGlue.cfg", [t for _, t in gcases])
+grejected = {tr["tid"]: c for tr, l, c in grej}
+gby = defaultdict(Counter)
+for name, t in gcases:
+    gby[name][grejected.get(t["tid"], "ACCEPTED")] += 1
+print("GOOD glue traces rejected:", len(grej0), "of", len(ggood))
+for name in gby:
+    print("CORRUPT", name, dict(gby[name]))
 ctx.cleanup()
